@@ -740,7 +740,20 @@ func (fc *FuncCtx) applyContract(st *State, fn *types.Func, c *FuncContract, rec
 			panic(engineError{err.Error()})
 		}
 		fc.noOblig++
-		names[l[0]] = fc.evalSpec(st, le, sc)
+		func() {
+			// a let that names something only visible inside the callee's package source (an unexported constant of a
+			// package known here through export data only) is skipped; clauses using it are then skipped as well
+			defer func() {
+				if r := recover(); r != nil {
+					if ee, ok := r.(engineError); ok && strings.Contains(ee.msg, "unknown name") {
+						fc.note("callee contract clause not usable at this call site (names an unexported identifier of a package loaded from export data): " + fn.Name())
+						return
+					}
+					panic(r)
+				}
+			}()
+			names[l[0]] = fc.evalSpec(st, le, sc)
+		}()
 		fc.noOblig--
 	}
 	// preconditions
@@ -758,7 +771,7 @@ func (fc *FuncCtx) applyContract(st *State, fn *types.Func, c *FuncContract, rec
 		}
 		g := fc.evalSpecBool(st, rq.Expr, sc)
 		_, k := funcKeyOf(fn)
-		if fc.contract != nil && fc.contract.Opts["trustpre"] == "on" {
+		if fc.contract != nil && (fc.contract.Opts["trustpre"] == "on" || trustListed(fc.contract.Opts["trustpre"], fn.Name())) {
 			// this function's contract does not claim panic freedom: callee preconditions are assumed, not proved
 			fc.note("callee precondition assumed (opt trustpre): " + k + ": " + rq.Text)
 		} else {
@@ -998,6 +1011,16 @@ func hasTypeParam(t types.Type, depth int) bool {
 					return true
 				}
 			}
+		}
+	}
+	return false
+}
+
+// trustListed: "opt trustpre=F,G" names the callees whose preconditions are assumed instead of proved
+func trustListed(list, name string) bool {
+	for _, x := range strings.Split(list, ",") {
+		if strings.TrimSpace(x) == name {
+			return true
 		}
 	}
 	return false
